@@ -41,6 +41,7 @@ class Mir:
         self.consts = {}   # const name -> Fn (body computing _0)
         self.by_last = {}
         self.closures = {}
+        self.closures_multi = {}
         self.load(path)
 
     def load(self, path):
@@ -72,7 +73,9 @@ class Mir:
                         self.by_last.setdefault(last, []).append(cur)
                         if cur.params:
                             cm = re.search(r'\{closure@[^}]*\}', cur.params[0][1])
-                            if cm and '{closure#' in name: self.closures[cm.group(0)] = cur
+                            if cm and '{closure#' in name:
+                                self.closures[cm.group(0)] = cur
+                                self.closures_multi.setdefault(cm.group(0), []).append(cur)
                     else:
                         cur.ret = m.group(6)
                         self.consts[name] = cur
@@ -406,10 +409,17 @@ class Engine:
         else:
             m = re.match(r'^(_\d+)(.*)$', inner)
             basestr = m.group(1); rest = m.group(2)
+        base = self.parse_place(basestr)
+        while True:
+            mi = re.match(r'^\[(_\d+)\](.*)$', rest)
+            if mi: base = ('index', base, ('local', mi.group(1))); rest = mi.group(2); continue
+            mi = re.match(r'^\[(\d+) of \d+\](.*)$', rest)
+            if mi: base = ('cindex', base, int(mi.group(1))); rest = mi.group(2); continue
+            break
         m = re.match(r'^\.(\d+): (.*)$', rest)
         if not m:
             raise Exception('inner? ' + inner)
-        return ('field', self.parse_place(basestr), int(m.group(1)), m.group(2))
+        return ('field', base, int(m.group(1)), m.group(2))
 
     def cell_of_local(self, st, name):
         fr = st.frames[-1]
@@ -511,7 +521,7 @@ class Engine:
         if s == 'false': return BoolV(z3.BoolVal(False))
         m = re.match(r'^core::num::<impl (\w+)>::(MAX|MIN)$', s)
         if m: return IntV(z3.IntVal(INT_RANGES[m.group(1)][1 if m.group(2) == 'MAX' else 0]), m.group(1))
-        if s.startswith('ZeroSized'): return StructV('zst', 'zst', {}, lazy=False)
+        if s.startswith('ZeroSized') or s == '()': return StructV('zst', 'zst', {}, lazy=False)
         if s == 'I80F48::ZERO' or s.endswith('I80F48::ZERO'): return IntV(z3.IntVal(0), I80)
         if s == 'I80F48::ONE' or s.endswith('I80F48::ONE'): return IntV(z3.IntVal(W), I80)
         # promoted const of the current function
@@ -632,7 +642,7 @@ class Engine:
     def rvalue(self, st, rhs, dest_ty=None):
         rhs = rhs.strip()
         # reference
-        m = re.match(r'^&(mut |raw const |raw mut )?(.*)$', rhs)
+        m = re.match(r'^&(mut |raw const \(fake\) |raw mut \(fake\) |raw const |raw mut |fake shallow |fake )?(.*)$', rhs)
         if m and not rhs.startswith('&&'):
             c, p = self.resolve(st, self.parse_place(m.group(2)))
             if c.val is None and not p:
@@ -934,7 +944,7 @@ class Engine:
             return o.payload[0][0]
         mm = re.match(r'^(?:std::result::)?(Result|Option)::<(.*)>::(map|and_then)::<(.*)>$', c)
         if mm and isinstance(args[0], EnumV):
-            cf = self.closure_fn(mm.group(4))
+            cf = self.closure_fn(mm.group(4), st)
             src = args[0]; isres = mm.group(1) == 'Result'
             okv = 0 if isres else 1
             if cf is not None and okv in src.payload and 0 in src.payload[okv]:
@@ -976,6 +986,48 @@ class Engine:
                 if i not in arr.fields:
                     arr.fields[i] = self.ex.fresh(it.fields['__elemty'], f'{arr.name}[{i}]')
                 return EnumV('Option', 1, {1: {0: arr.fields[i]}})
+        if re.match(r'^<Box<(.*)> as (AsRef<.*>|Deref|DerefMut|AsMut<.*>|Borrow<.*>)>::(as_ref|deref|deref_mut|as_mut|borrow)$', c):
+            b = self.deref_val(args[0])
+            if isinstance(b, StructV):
+                bm = re.match(r'^(?:std::boxed::)?Box<(.*)>$', b.ty.strip())
+                if '__pointee' not in b.fields and bm:
+                    b.fields['__pointee'] = Cell(self.ex.fresh(bm.group(1), b.name + '.*'))
+                if '__pointee' in b.fields: return RefV(b.fields['__pointee'])
+        # ---- Anchor / Pubkey / PDA models (keys are uninterpreted scalars; sha256 derivation is an uninterpreted function)
+        if re.match(r'^<anchor_lang::prelude::(AccountLoader|Account|InterfaceAccount|Signer|Program|Interface|SystemAccount|UncheckedAccount|Sysvar)<.*> as AsRef<anchor_lang::prelude::AccountInfo<.*>>>::as_ref$', c):
+            o = self.deref_val(args[0])
+            if isinstance(o, StructV):
+                if '__info' not in o.fields:
+                    o.fields['__info'] = Cell(self.ex.fresh("anchor_lang::prelude::AccountInfo<'_>", o.name + '.info'), name=o.name + '.info')
+                return RefV(o.fields['__info'])
+        if re.match(r'^core::str::<impl str>::as_bytes$', c):
+            a0 = args[0]
+            label = a0.name if isinstance(a0, Opaque) else str(a0)
+            return RefV(Cell(IntV(z3.IntVal(intern_bytes(label)), 'bytes')))
+        if re.match(r'^<anchor_lang::prelude::Pubkey as AsRef<\[u8\]>>::as_ref$', c):
+            k = self.deref_val(args[0])
+            if isinstance(k, IntV): return RefV(Cell(IntV(SEED_KEY(k.e), 'bytes')))
+        if re.match(r'^<\[u8; 1\] as Index<RangeFull>>::index$', c):
+            arr = self.deref_val(args[0])
+            if isinstance(arr, StructV) and 0 in arr.fields and isinstance(arr.fields[0], IntV):
+                return RefV(Cell(IntV(SEED_BUMP(arr.fields[0].e), 'bytes')))
+        mm = re.match(r'^anchor_lang::prelude::Pubkey::(create_program_address|find_program_address)$', c)
+        if mm:
+            seeds = self.deref_val(args[0]); prog = self.deref_val(args[1])
+            if isinstance(seeds, StructV) and isinstance(prog, IntV):
+                items = [self.deref_val(seeds.fields[i]) for i in sorted(k for k in seeds.fields if isinstance(k, int))]
+                if all(isinstance(x, IntV) for x in items):
+                    es = [x.e for x in items]
+                    if mm.group(1) == 'create_program_address':
+                        while len(es) < 5: es.append(z3.IntVal(-1))
+                        key = PDA_CREATE(*es[:5], prog.e)
+                        d = z3.Int(self.ex.fresh_name('pda_ok')); self.ex.assumptions.append(z3.And(d >= 0, d <= 1))
+                        st.events.append(('pda', 'create', es, prog.e, key))
+                        return EnumV('Result', d, {0: {0: IntV(key, 'Pubkey')}, 1: {0: Opaque('PubkeyError', 'pda_err')}})
+                    while len(es) < 4: es.append(z3.IntVal(-1))
+                    key = PDA_FIND(*es[:4], prog.e); bump = PDA_BUMP(*es[:4], prog.e)
+                    st.events.append(('pda', 'find', es, prog.e, key))
+                    return StructV('tuple', 't', {0: IntV(key, 'Pubkey'), 1: IntV(bump, 'u8')}, lazy=False)
         # ---- iterator models over fixed arrays / short lists, closures executed from their own MIR
         mm = re.match(r'^core::slice::<impl \[.*\]>::(iter|iter_mut)$', c)
         if mm:
@@ -987,7 +1039,7 @@ class Engine:
             kind = mm.group(1); it = self.deref_val(args[0])
             if kind == 'enumerate':
                 return StructV('Enumerate', self.ex.fresh_name('enum'), {'__iter': it}, lazy=False)
-            cf = self.closure_fn(mm.group(2) or '')
+            cf = self.closure_fn(mm.group(2) or '', st)
             if cf is None: return None
             if kind == 'filter':
                 return StructV('Filter', self.ex.fresh_name('filter'), {'__iter': it, '__pred': cf.name, '__env': Cell(args[1])}, lazy=False)
@@ -1106,12 +1158,23 @@ class Engine:
             return IntV(z3.If(o.disc == 1, sv.e, args[1].e), sv.ty)
         return None
 
-    def closure_fn(self, generic):
+    def closure_fn(self, generic, st=None, ret_ty=None):
         cm = re.search(r'\{closure@[^}]*\}', generic or '')
         if not cm: return None
+        cands = []
         for mir in self.mirs:
-            if cm.group(0) in mir.closures: return mir.closures[cm.group(0)]
-        return None
+            cands += mir.closures_multi.get(cm.group(0), [])
+        if len(cands) <= 1: return cands[0] if cands else None
+        # macro-generated closures share one span: narrow by enclosing function, then by return type
+        if st is not None:
+            cur = st.frames[-1]['fn'].name
+            base = re.sub(r'::\{closure#\d+\}$', '', cur)
+            c2 = [f for f in cands if f.name.startswith(cur + '::{closure#')] or [f for f in cands if f.name.startswith(base + '::{closure#')]
+            if c2: cands = c2
+        if len(cands) > 1 and ret_ty is not None:
+            c3 = [f for f in cands if short(f.ret) == short(ret_ty)]
+            if c3: cands = c3
+        return cands[0] if len(cands) == 1 else None
 
     def fn_by_name(self, name):
         for mir in self.mirs:
@@ -1531,10 +1594,21 @@ class Engine:
                 res.append(ns)
             return res
         # call
-        m = re.match(r'^(.*?) = (.*)\((.*)\) -> \[return: (bb\d+), unwind.*\]$', s)
-        if m and not re.match(r'^(Add|Sub|Mul|Div|Rem|Eq|Ne|Lt|Le|Gt|Ge|BitAnd|BitOr|BitXor|Shl|Shr|Not|Neg|discriminant|\w+WithOverflow)$', m.group(2)):
-            dest, callee, argstr, retbb = m.groups()
-            return self.do_call(st, dest, callee, argstr, retbb)
+        m = re.match(r'^(.*?) = (.*)\) -> \[return: (bb\d+), unwind.*\]$', s)
+        if m:
+            body = m.group(2)
+            # find the '(' that opens the argument list: the one matching the final ')'
+            depth = 0; k = None
+            for i in range(len(body) - 1, -1, -1):
+                ch = body[i]
+                if ch == ')': depth += 1
+                elif ch == '(':
+                    if depth == 0: k = i; break
+                    depth -= 1
+            if k is not None:
+                callee = body[:k]; argstr = body[k + 1:]
+                if not re.match(r'^(Add|Sub|Mul|Div|Rem|Eq|Ne|Lt|Le|Gt|Ge|BitAnd|BitOr|BitXor|Shl|Shr|Not|Neg|discriminant|\w+WithOverflow)$', callee):
+                    return self.do_call(st, m.group(1), callee, argstr, m.group(3))
         m = re.match(r'^(.*?) = (.*)\((.*)\) -> (unwind.*|bb\d+|\[unwind.*\])$', s)
         if m and ' -> ' in s and 'return:' not in s:
             raise PathEnd('diverging call ' + m.group(2)[:60] + ' in ' + fn.name[-70:])
@@ -1572,6 +1646,19 @@ class Engine:
                 self.assign(ns, dest, val); self.goto(ns, retbb)
                 forks.append(ns)
             return forks
+        cm = re.match(r'^<(\{closure@[^}]*\}) as (Fn|FnMut|FnOnce)<\(.*\)>>::(call|call_mut|call_once)$', callee)
+        if v is None and cm:
+            dm_ = re.match(r'^(_\d+)$', dest)
+            cf = self.closure_fn(cm.group(1), st, fn.locals.get(dm_.group(1)) if dm_ else (fn.ret if dest == '_0' else None))
+            if cf is not None and cf.blocks:
+                env = args[0]
+                a0 = env if isinstance(env, RefV) or cf.params[0][1].startswith('{closure') else RefV(Cell(env))
+                extra = []
+                if len(args) > 1 and isinstance(args[1], StructV) and args[1].ty == 'tuple':
+                    extra = [args[1].fields[i] for i in sorted(k for k in args[1].fields if isinstance(k, int))]
+                fr['bb'] = None
+                self.push_frame(st, cf, [a0] + extra, dest, retbb)
+                return
         if v is None and not self.is_opaque(callee):
             target = self.find_fn(callee)
             if target is not None and target.blocks:
@@ -1658,6 +1745,19 @@ def compute_ipdom(fn):
     fn._ipdom = ip
     return ip
 
+_BYTES = {}
+def intern_bytes(label):
+    """constant byte strings (seed prefixes, discriminators) are only ever compared: intern them as distinct integers"""
+    if label not in _BYTES:
+        import hashlib
+        _BYTES[label] = 1000 + int(hashlib.sha1(label.encode()).hexdigest()[:10], 16)     # stable across runs
+    return _BYTES[label]
+_I = z3.IntSort()
+SEED_KEY = z3.Function('seed_of_key', _I, _I)
+SEED_BUMP = z3.Function('seed_of_bump', _I, _I)
+PDA_CREATE = z3.Function('pda_create', _I, _I, _I, _I, _I, _I, _I)
+PDA_FIND = z3.Function('pda_find', _I, _I, _I, _I, _I, _I)
+PDA_BUMP = z3.Function('pda_find_bump', _I, _I, _I, _I, _I, _I)
 def zint_(x):
     return z3.IntVal(x) if isinstance(x, int) else x
 def disc_eq(v, k):
